@@ -142,6 +142,11 @@ def battery(kinds, per_step=3):
                     qs.append({'k': 'chk_id', 'c': rnd.choice([''] + schema['classes'])})
                 elif kind == 'consistent':
                     qs.append({'k': 'consistent'})
+                elif kind == 'cli':
+                    nr = rnd.choice([0, 0, 1, 1, 2])
+                    nk = rnd.choice([0, 0, 1, 2])
+                    qs.append({'k': 'cli', 'rels': [rnd.choice(rels + ['R99']) for _ in range(nr)] if rels else [],
+                               'kinds': [rnd.choice(schema['classes']) for _ in range(nk)], 'proc': rnd.random() < 0.05})
                 elif kind == 'chk_sub':
                     sups = schema.get('supertypes', [])
                     if sups:
